@@ -924,6 +924,18 @@ class Known:
 
 
 def sweep(ck, b):
+    """entry point (called by c01.run): never lets the check die -- a failure of the harness itself is reported"""
+    try:
+        return _sweep(ck, b)
+    except Exception as ex:
+        import traceback
+        ck.fail('c01:builtin-sweep:harness', 'the builtin sweep of tools/props/c01_builtins.py did not complete: %r' % (ex,),
+                dict(access='harness', traceback=traceback.format_exc()[-3000:]), tie=True)
+        ck.extra.setdefault('builtin_sweep', dict(completed=False, error=repr(ex)))
+        return None
+
+
+def _sweep(ck, b):
     t0 = time.time()
     P = Pools(ck.thorough)
     T = mk_table()
@@ -943,6 +955,8 @@ def sweep(ck, b):
     ntable = len(cases)
     nnest = 1000 if ck.thorough else 200
     nest, pruned = nest_cases(T, ck.rng, nnest, P, K)
+    have = {c.key for c in cases}
+    nest = [c for c in nest if c.key not in have]       # (a random composition may coincide with a permanent one)
     cases += nest
     have = {c.key for c in cases}
     # open findings recorded with their case (a composition of another seed, a case of the other tier): replayed as recorded
